@@ -1,6 +1,7 @@
 SPECIFICATION TSpec
 CONSTANTS
   Statuses = {}
+  Codes = {}
 CONSTRAINT Track
 POSTCONDITION Verdicts
 CHECK_DEADLOCK FALSE
